@@ -150,7 +150,7 @@ def main(argv):
         meta = json.load(open(os.path.join(src, "m%s_meta.json" % n)))
         meta = {"id": sid, "property": prop, "summary": meta.get("summary"), "needs": meta.get("needs"),
                 "files": meta.get("files"), "origin": "independent sub-agent given only the property text and a scratch worktree",
-                "round": 1 if int(dst) <= 2 else 2 if int(dst) <= 4 else 3}
+                "round": (int(dst) + 1) // 2}
         meta["confirmed"] = confirm(sid)
         json.dump(meta, open(os.path.join(d, "meta.json"), "w"), indent=1)
         c = meta["confirmed"]
